@@ -6,6 +6,7 @@ import IrVerif.Lemmas.ScopeReplDeser
 import IrVerif.Lemmas.ScopeModel
 import IrVerif.Props.C17
 import IrVerif.Model.ScopeExt
+import IrVerif.Lemmas.ScopeEff
 namespace IrVerif.Scope
 
 /-! ### the write log only changes tensor names -/
@@ -417,6 +418,66 @@ theorem C03_pure_ext (ver : Option Int) (w w1 : WorldE) (p : GraphE) (h : serial
     obtain ⟨rfl, _⟩ := h
     exact ⟨rfl, rfl, rfl, fun t => applyWrites_data ws w.st.tens t⟩
 
+/-! ### purity over the write sites of serde.py (`Model/ScopeEff.lean`) -/
+
+/-- **C03_pure_sites**: `to_proto` modelled at the granularity of the attribute assignments that serde.py's
+    `serialize_*` functions perform on IR objects.  `Effect` is a vocabulary in which EVERY observable slot of the
+    extended IR model can be written (value name / info / const_value / metadata_props / quantization annotation,
+    tensor name / payload, node device configurations) and `Effect.apply` implements all of them, so an impure
+    serializer is expressible; `writeSites` is the list of (object kind, attribute) pairs at which the code assigns
+    (one: `value.const_value.name = value.name`), recomputed from the AST of the imported `onnx_ir.serde` by
+    `harness/c03.py` on every run and compared with this list.
+    Statement: the effects that the extended serializer logs (nested graphs included), replayed on the heap,
+    give exactly the heap `serializeE` returns; every one of them is at a site of `writeSites`; and every one is
+    the assignment `tensor.name := value.name` for an initializer `value` (of some graph of the model) whose
+    `const_value` is that tensor.  What is NOT by construction here: the log is a list of generic effects, and
+    that none of them is a write to a value, a node or the extension state is proved from the serializer
+    (`serGraphE_writes`), not read off a type.  What still rests on the deep-snapshot oracle: that the real
+    functions have no effect through calls the AST scan does not see (it sees assignments, augmented assignments,
+    `del` and calls of mutating container methods on objects that are not protos or locals). -/
+theorem C03_pure_sites (ver : Option Int) (w w1 : WorldE) (p : GraphE) (h : serializeE ver w = .ok (w1, p)) :
+    ∃ es : List Effect, serializeEff ver w = .ok (es, p) ∧ runEffects es w = w1 ∧
+      (∀ e ∈ es, e.site ∈ writeSites) ∧
+      (∀ e ∈ es, ∃ kv ∈ allInitsG w.root, (w.st.vals kv.2).const = some e.id ∧
+        e.val = Payload.optName (w.st.vals kv.2).name) := by
+  simp only [serializeE] at h
+  split at h
+  · simp at h
+  · rename_i q ws hs
+    simp only [Except.ok.injEq, Prod.mk.injEq] at h
+    obtain ⟨rfl, rfl⟩ := h
+    refine ⟨ws.map nameWrite, by simp only [serializeEff, hs], ?_, ?_, ?_⟩
+    · obtain ⟨st, x, g⟩ := w
+      exact runEffects_nameWrites ws st x g
+    · intro e he
+      simp only [List.mem_map] at he
+      obtain ⟨tn, _, rfl⟩ := he
+      simp [nameWrite, Effect.site, writeSites]
+    · intro e he
+      simp only [List.mem_map] at he
+      obtain ⟨tn, htn, rfl⟩ := he
+      obtain ⟨kv, hkv, hc, hname⟩ := serGraphE_writes _ _ _ _ _ _ _ hs tn htn
+      exact ⟨kv, hkv, hc, by simp [nameWrite, hname]⟩
+
+/-- **C03_pure_frame**: the frame of the write sites, for EVERY heap and EVERY log of effects (not only the logs
+    the model's serializer produces): if every effect of the log is at a site of `writeSites`, replaying the log
+    leaves the graph tree, every value cell (name, type / shape / doc, const_value, producer, uses, ownership),
+    the extension state (merged metadata, quantization annotations, device configurations), the allocation
+    counters and every tensor's payload / dtype / shape as they were, and a tensor that no effect of the log
+    names keeps its name too.  Together with `C03_pure_sites` this is `C03_pure_ext` with the by-construction
+    part replaced by a statement about the log; a new write site in serde.py (reported by the AST scan) needs
+    a new entry in `writeSites`, and this theorem then has to be proved again for the longer list. -/
+theorem C03_pure_frame (es : List Effect) (w : WorldE) (hs : ∀ e ∈ es, e.site ∈ writeSites) :
+    (runEffects es w).root = w.root ∧ (runEffects es w).ext = w.ext ∧ (runEffects es w).st.vals = w.st.vals ∧
+    (runEffects es w).st.nv = w.st.nv ∧ (runEffects es w).st.nt = w.st.nt ∧ (runEffects es w).st.nn = w.st.nn ∧
+    (runEffects es w).st.ng = w.st.ng ∧
+    (∀ t, ((runEffects es w).st.tens t).data = (w.st.tens t).data ∧
+      ((runEffects es w).st.tens t).ty = (w.st.tens t).ty ∧ ((runEffects es w).st.tens t).sh = (w.st.tens t).sh) ∧
+    (∀ t, (∀ e ∈ es, e.id ≠ t) → (runEffects es w).st.tens t = w.st.tens t) := by
+  obtain ⟨f, g⟩ := runEffects_frame es w hs
+  exact ⟨f.root, f.ext, f.vals, f.nv, f.nt, f.nn, f.ng, f.payload, g⟩
+
+
 /-! ### non-vacuity -/
 
 /-- an IR model with an input `x`, an initializer `w`, node `A(x, w, None) -> y, ""` (trailing
@@ -465,5 +526,17 @@ example : wfModelDB { exampleDecoS with mprops := [("a", "1"), ("a", "2")] } = f
 example : (match deserializeE exampleExt with
     | .ok w => isOkB (serializeE (some 10) w) && !isOkB (serializeE (some 11) w)
     | .error _ => false) = true := by decide +kernel
+
+/-- the vocabulary of `Model/ScopeEff.lean` does express impure writes: renaming a value is an effect, it is not
+    at a write site of serde.py (the hypothesis of `C03_pure_frame` excludes it), and it changes the heap -/
+example : (⟨.value, 0, "name", .optName (some "renamed")⟩ : Effect).site ∉ writeSites ∧
+    (((⟨.value, 0, "name", .optName (some "renamed")⟩ : Effect).apply ⟨{}, {}, default⟩).st.vals 0).name = some "renamed" := by
+  refine ⟨by decide, ?_⟩
+  simp [Effect.apply, Store.modify]
+
+/-- the hypotheses of `C03_pure_sites` are satisfiable with a non-empty log: a graph with an initializer -/
+example : (match deserializeE (.mk [] [⟨"w", "d0", "f32", "[2]"⟩] [] [] [] []) with
+    | .ok w => (match serializeEff none w with | .ok (es, _) => es.length | .error _ => 0)
+    | .error _ => 0) = 1 := by decide +kernel
 
 end IrVerif.Scope
